@@ -166,7 +166,8 @@ def unfitted_strategy():
     biv = st.fixed_dictionaries({'kind': st.just('bivariate'), 'family': st.sampled_from(c10.FAMS)})
     gau = st.fixed_dictionaries({'kind': st.just('gaussian'), 'config': st.fixed_dictionaries({'mode': st.just('single'), 'dist': M.dist_atom(M.FAST_CLASSES)})})
     vin = st.fixed_dictionaries({'kind': st.just('vine'), 'vine_type': st.sampled_from(['center', 'direct', 'regular'])})
-    return st.fixed_dictionaries({'h': st.one_of(uni, biv, gau, vin), 'via': st.sampled_from(['constructor', 'deepcopy', 'get_instance'])})
+    return st.fixed_dictionaries({'h': st.one_of(uni, biv, gau, vin),
+                                  'via': st.sampled_from(['constructor', 'deepcopy', 'get_instance', 'dict', 'generic-dict', 'save-load'])})
 
 
 def queries(kind):
@@ -195,6 +196,26 @@ def oracle_unfitted(case):
         m = copy.deepcopy(m)
     elif case['via'] == 'get_instance' and h['kind'] != 'bivariate':
         m = get_instance(m)
+    elif case['via'] in ('dict', 'generic-dict') and h['kind'] in ('bivariate', 'vine'):
+        # bivariate copulas and vines serialise in the unfitted state too: what comes back is still unfitted
+        from copulas.bivariate.base import Bivariate
+        from copulas.multivariate.base import Multivariate
+
+        dct = value(m.to_dict, what='%s.to_dict (unfitted)' % type(m).__name__)
+        loader = type(m) if case['via'] == 'dict' else (Bivariate if h['kind'] == 'bivariate' else Multivariate)
+        m = value(loader.from_dict, dct, what='%s.from_dict (unfitted)' % loader.__name__)
+    elif case['via'] == 'save-load':
+        import os
+        import shutil
+        import tempfile
+
+        tmp = tempfile.mkdtemp(prefix='verif-c19-')
+        try:
+            path = os.path.join(tmp, 'm.pkl')
+            value(m.save, path, what='save (unfitted)')
+            m = value(type(m).load, path, what='load (unfitted)')
+        finally:
+            shutil.rmtree(tmp, ignore_errors=True)
     for name, q in queries(h['kind']):
         k, e = call(q, m, allow=(Exception,))
         require(k == 'exc' and isinstance(e, NotFittedError), 'unfitted %s: %s %s instead of raising NotFittedError'
